@@ -31,12 +31,15 @@ vars == <<fields, nextId, done, prefix>>
 
 NoTag == [style |-> "none", words |-> <<>>]
 TagOf(style, i) == IF style = "none" THEN NoTag ELSE [style |-> style, words |-> TagWords[i]]
-CollKinds == {"strs", "ints", "smap", "set", "durs"}
+CollKinds == {"strs", "ints", "smap", "set", "durs", "structs"}
+NarrowKinds == {"int8", "uint16", "named"}     \* leaf types narrower than the widest literal of their family
 \* how a leaf is supplied: not at all / under its primary name / under its alias / under both (an error) / explicitly
-\* empty (collections) / empty under the primary name and a value under the alias (still both: an error)
+\* empty (collections) / empty under the primary name and a value under the alias (still both: an error) / under its
+\* primary name with a value outside the leaf type's range (an error)
 PatsK(alias, kind) == (IF alias THEN {"neither", "primary", "alias", "both"} ELSE {"neither", "primary"})
                       \cup (IF kind \in CollKinds THEN {"empty"} ELSE {})
                       \cup (IF alias /\ kind \in CollKinds THEN {"bothempty"} ELSE {})
+                      \cup (IF ~alias /\ kind \in NarrowKinds THEN {"over"} ELSE {})
 Pats(alias) == IF alias THEN {"neither", "primary", "alias", "both"} ELSE {"neither", "primary"}
 
 Leaf(i, kind, style, srctag, alias, pat) ==
@@ -114,15 +117,18 @@ Expect ==
                   set |-> l.pat \in {"primary", "alias", "empty"},
                   env |-> EnvWords(p, l, FALSE), envAlias |-> IF l.alias = <<>> THEN <<>> ELSE EnvWords(p, l, TRUE),
                   flag |-> FlagParts(p, l, FALSE), flagAlias |-> IF l.alias = <<>> THEN <<>> ELSE FlagParts(p, l, TRUE)]],
-   error |-> \E k \in 1..Len(ls) : ls[k].leaf.pat \in {"both", "bothempty"}]
+   error |-> \E k \in 1..Len(ls) : ls[k].leaf.pat \in {"both", "bothempty"},
+   over |-> \E k \in 1..Len(ls) : ls[k].leaf.pat = "over"]
 
 (* ------------------------------ properties ------------------------------ *)
 \* the documented names of distinct leaves are distinct (otherwise "exactly when its variable is present" is ill-defined)
 NamesDistinct ==
   done => LET e == Expect.leaves IN
           \A a, b \in 1..Len(e) : a # b => (e[a].env # e[b].env /\ e[a].flag # e[b].flag)
-\* supplying both names of an aliased leaf is the only source of an error
-ErrorIffBoth == done => (Expect.error <=> \E k \in 1..Len(Expect.leaves) : Expect.leaves[k].pat \in {"both", "bothempty"})
+\* supplying both names of an aliased leaf and an out-of-range value are the only sources of an error
+ErrorIffBoth == done => /\ (Expect.error <=> \E k \in 1..Len(Expect.leaves) : Expect.leaves[k].pat \in {"both", "bothempty"})
+                        /\ (Expect.over <=> \E k \in 1..Len(Expect.leaves) : Expect.leaves[k].pat = "over")
+                        /\ \A k \in 1..Len(Expect.leaves) : Expect.leaves[k].pat = "over" => ~Expect.leaves[k].set
 
 Emit == (done /\ (SampleN = 1 \/ RandomElement(1..SampleN) = 1)) => PrintT(<<"CASE", ToJson([fields |-> fields, prefix |-> prefix, expect |-> Expect])>>)
 =============================================================================
